@@ -70,6 +70,18 @@ def main():
         shutil.rmtree(wt, ignore_errors=True)
     dst = os.path.join(ROOT, "seeded", name)
     os.makedirs(dst, exist_ok=True)
+    oldp = os.path.join(dst, "meta.json")
+    if os.path.exists(oldp):
+        try:
+            old = json.load(open(oldp))
+            oe = old["checks"][pid]["exit"]
+            if oe != meta["checks"][pid]["exit"]:
+                meta["history"] = "first evaluation (%s) ended with exit %d%s; this is the re-evaluation after the check was strengthened" % (
+                    old.get("evaluated_at", "?"), oe, " (missed)" if oe == 0 else "")
+            elif old.get("history"):
+                meta["history"] = old["history"]
+        except Exception:
+            pass
     for f in os.listdir(src):
         if os.path.isfile(os.path.join(src, f)):
             shutil.copy(os.path.join(src, f), dst)
